@@ -40,7 +40,7 @@ MAGS_OK = ['0', '1', '7', '10', '512', '1023', '1024', '1025', '999', '1000', '6
            '00012', '1.0', '9007199254740993', '123456789012345678901234567890', '0.333333333333333333',
            '99999999999999999999.5', '4.000', '1106', '18446744073709551615', '0.0',
            '.0000001', '3.0000004', '0.0000000003', '1.9999999', '7.000000000001', '1023.9999999999']
-MAGS_BAD = ['', '.', '1.', '1..5', '1,5', '1e3', '1E3', '0x10', ' 1', '1 ', '--1', '+-1', '1_000',
+MAGS_BAD = ['1%', '50%', '100%d', '1%(x)s', '%s', '%', '1%%', '', '.', '1.', '1..5', '1,5', '1e3', '1E3', '0x10', ' 1', '1 ', '--1', '+-1', '1_000',
             'abc', '1.5.2', 'inf', 'nan', '-', '+', '1 .5']
 SIGNS = ['', '+', '-']
 DBL_MAX = Fraction(2) ** 1024
